@@ -1904,7 +1904,33 @@ func c12GenReqs(g *c12Gen, cfg genCfg, playBlock int) ([]c12Req, string) {
 	case f < 86:
 		fam = "selectors"
 		first := g.selector(-1)
-		if first != nil && rapid.IntRange(0, 2).Draw(rt, "giveback") == 0 {
+		// addresses that own an output of a transaction that is only pending (what excludeUnconfirmed skips)
+		var withPending []int
+		{
+			pend := map[string]bool{}
+			for _, t := range g.nm.Pool {
+				pend[string(t.Txid)] = true
+			}
+			for i := 0; i < 6; i++ {
+				us := spendable(g.s, hx.Ring[i].Address, g.h, true)
+				has := false
+				for _, u := range us {
+					has = has || pend[string(u.Txid)]
+				}
+				if has && len(us) >= 2 {
+					withPending = append(withPending, i)
+				}
+			}
+		}
+		giveBack := false
+		if first != nil && len(withPending) > 0 && rapid.IntRange(0, 1).Draw(rt, "giveback") == 0 {
+			first = g.selector(rapid.SampledFrom(withPending).Draw(rt, "pendingaddr"))
+			giveBack = first != nil
+		}
+		if first != nil && !giveBack && rapid.IntRange(0, 2).Draw(rt, "giveback2") == 0 {
+			giveBack = true
+		}
+		if giveBack {
 			// the first selection wants only confirmed outputs and more than the address owns: it scans everything,
 			// skips what is unconfirmed, gives its locks back and fails - while two plain selections of the same
 			// address run
@@ -1919,6 +1945,9 @@ func c12GenReqs(g *c12Gen, cfg genCfg, playBlock int) ([]c12Req, string) {
 			for i := 0; i < 2; i++ {
 				if r := g.selector(first.Addr); r != nil {
 					r.BySize, r.Exclude, r.Need = false, false, "1"
+					if i == 1 {
+						r.Need = new(big.Int).Sub(sum, big.NewInt(1)).String() // everything the address owns
+					}
 					add(r)
 				}
 			}
